@@ -422,20 +422,26 @@ Superseded(cx, idnames, x) ==
   x \notin cx.N /\ \E j \in cx.N : idnames[x] \cap NamesOf(cx.c, j) # {}
 C18a(cx, h1, ids) ==
   V(TRUE, (DOMAIN cx.c.hist0 \cup DOMAIN h1) \subseteq KeysOfIds(ids))
+(* The records BELONGING to a job are its own output record, its input-name record and the
+   per-dependency records of what IT consumed (u!!!job) - cf. C08 "the per-dependency records of
+   what it last consumed".  A record of what a still valid job b consumed from a superseded
+   producer belongs to b, not to the producer. *)
 C18b(cx, s, nh, h1, ids, idnames) ==
   V(nh = "ok" /\ Alive(s),
     LET absent == {x \in ids \ cx.N : ~Superseded(cx, idnames, x)}
         sup == {x \in ids : Superseded(cx, idnames, x)}
         keep == ({OKey(a) : a \in absent} \cup {NKey(a) : a \in absent}
                  \cup {EKey(a, b) : a \in absent, b \in ids \ sup}
-                 \cup {EKey(a, b) : a \in ids \ sup, b \in absent})
+                 \cup {EKey(a, b) : a \in ids, b \in absent})
                 \cap DOMAIN cx.c.hist0
     IN \A k \in keep : k \in DOMAIN h1 /\ h1[k] = cx.c.hist0[k])
 C18c(cx, s, nh, h1, ids, idnames) ==
   V(nh = "ok" /\ Alive(s) /\ \E x \in ids : Superseded(cx, idnames, x),
     LET sup == {x \in ids : Superseded(cx, idnames, x)}
         gone == {OKey(a) : a \in sup} \cup {NKey(a) : a \in sup}
-                \cup {EKey(a, b) : a \in sup, b \in ids} \cup {EKey(a, b) : a \in ids, b \in sup}
+                \cup {EKey(a, b) : a \in ids, b \in sup}
+                \* and what an up-to-date present job consumed is recorded under present names only
+                \cup {EKey(a, b) : a \in sup, b \in {x \in cx.N : x \in DOMAIN s.outs}}
     IN gone \cap DOMAIN h1 = {})
 C18d(cx, s, nh, h1) ==
   V(nh = "ok" /\ Alive(s),
@@ -468,8 +474,9 @@ C19b(b, b1, b2) ==
        (b[f] - b1[f]) * (b2.jobs - b1.jobs) = (b2[f] - b1[f]) * (b.jobs - b1.jobs))
 (* the resume of an aborted evaluation finishes the build *)
 C19c(b) == V(b.shape = "resume" /\ ~b.dead, b.failed = 0 /\ b.upf = 0)
-(* waves per call stay far below the runaway guard (1500 + 10 * jobs) *)
-C19d(b) == V(~b.dead, b.maxdepth <= 4 * b.jobs + 16)
+(* waves per call stay below the runaway guard (1500 + 10 * jobs): at most 6 per job (runs of
+   consecutive Ephemeral jobs), about 3 in chains of Output jobs *)
+C19d(b) == V(~b.dead, b.maxdepth <= 7 * b.jobs + 16)
 
 (***************************************************************************)
 (* C20  Protocol misuse is rejected without side effects                   *)
